@@ -130,7 +130,7 @@ fn test_case_inner(c: &Case) -> Result<CaseInfo, Fail> {
 
 pub fn cases(tier: Tier, seed: u64) -> Vec<Case> {
     let mut v = vec![];
-    for n in [2usize, 3] {
+    for n in if tier == Tier::Thorough { vec![2usize, 3, 4] } else { vec![2usize, 3] } {
         let circ = base_circ(n);
         let inputs: Vec<Vec<bool>> = (0..n).map(|p| vec![(seed as usize + p) % 2 == 0, p % 2 == 0]).collect();
         for p_eval in 0..n {
